@@ -152,7 +152,6 @@ func exploreItem(c *vf.Ctx, it item, idx int, race bool) {
 	assigns := map[string]bool{}
 	d := &dfsCtl{e: e, body: func(p tp.ThreadPool) ([]float64, error) { return it.b.run(it.N, p) },
 		T: it.T, buf: it.Buf, bound: it.Bound, cap: it.Cap, shard: c.Shard, nshard: c.NShard}
-	d.branchIdx = int64(idx) // rotate which shard gets which branch
 	label := fmt.Sprintf("%s|T=%d|buf=%d", it.Body, it.T, it.Buf)
 	if it.Reuse {
 		label += "|reused"
@@ -218,12 +217,26 @@ func exploreItem(c *vf.Ctx, it item, idx int, race bool) {
 		}
 	}
 	c.Guard(label, int64(idx), Case{Item: it})
-	d.explore(nil, 0)
-	if d.capped {
-		c.Cap(fmt.Sprintf("execution cap %d reached at preemption bound %d for some items (bounded DFS not completed there)", it.Cap, it.Bound))
-		c.Count("items_capped", 1)
-	} else if c.Shard == 0 {
-		c.Count(fmt.Sprintf("items_completed_at_bound_%d", it.Bound), 1)
+	// Iterative context bounding, top down: a depth-first search that hits its execution
+	// cap at bound B has not necessarily covered every schedule with fewer preemptions, so
+	// this shard's part of the tree is searched again at B-1, B-2, ... until one bound is
+	// completed. What is reported is the bound completed, per item and shard portion.
+	for bound := it.Bound; ; bound-- {
+		d.bound, d.n, d.capped, d.branchIdx = bound, 0, false, int64(idx)
+		d.explore(nil, 0)
+		if !d.capped {
+			c.Count(fmt.Sprintf("item_shard_portions_completed_at_bound_%d", bound), 1)
+			if c.Shard == 0 {
+				c.Count(fmt.Sprintf("items_completed_at_bound_%d(shard 0 portion)", bound), 1)
+			}
+			break
+		}
+		c.Cap(fmt.Sprintf("execution cap %d reached at preemption bound %d for some items (bounded DFS not completed there; the next lower bound was then completed or is listed here too)", it.Cap, bound))
+		c.Count(fmt.Sprintf("item_shard_portions_capped_at_bound_%d", bound), 1)
+		if bound == 0 {
+			c.Count("item_shard_portions_capped_at_every_bound", 1)
+			break
+		}
 	}
 }
 
